@@ -168,6 +168,13 @@ STRENGTHENED = {
     "C14_2": "Sim B (C14): the healing event is drawn from every account event kind (fill, order report, cancel response), not only balances",
     "C20_1": "Sim G: 3rd sub-batch through the real MarketDataInMemory with 900-3300 events",
     "C20_2": "Sim G: pacing with occasional 1-10 s gaps (a source slower than 30 s of virtual time)",
+    "C01_3": "Sim A: a failed cancel response carries one of three error kinds (connectivity / rate limit / rejected), chosen by the scenario",
+    "C04_4": "Sim C4: 'foreign order report' step - a report whose envelope names the link's own exchange while the order key names another exchange",
+    "C06_3": "Sim D2: the order of bid / ask levels inside a REST snapshot is rotated per scenario (the book must not depend on the venue's ordering)",
+    "C07_4": "Sim C7: clock-leap fault (the clock jumps past both the response instant and the deadline in one step); response must win when delay < timeout",
+    "C08_4": "Sim E: fee rates 7 and 33 basis points and quantities 0.125 / 0.333 (amounts that do not round to the same value under a different formula)",
+    "C09_4": "all simulators: market events carry a local receive time one hour after (and unrelated to) the exchange time",
+    "C20_3": "Sim G: datasets that are not chronological (exchange timestamps go backwards inside the dataset)",
 }
 
 
